@@ -9,6 +9,7 @@ import urlgen
 
 ID = "C07"
 LEAN_MODULE = "UralModel.Props.C07"
+EXTRA_IMPORTS = ["UralModel.Props.C07Whole"]
 THEOREMS = [
     "Ural.Props.C07.normHost_eq_normalizeHostname",
     "Ural.Props.C07.normalized_netloc",
@@ -34,6 +35,38 @@ THEOREMS = [
     "Ural.Props.C07.stems_fp_error",
     "Ural.Props.C07.get_hostname_spec_of",
     "Ural.Props.C07.get_hostname_spec",
+    # --- on STRINGS, the parser inside the model (Props/C07Whole.lean and its lemma files) ---
+    "Ural.NormReparse.print_reparse",
+    "Ural.NormReparse.norm_reparse",
+    "Ural.NormReparse.norm_schemeKept",
+    "Ural.FpReparse.fp_tuple",
+    "Ural.FpReparse.fp_reparse",
+    "Ural.C07.pyHostname_eq",
+    "Ural.C07.fingerprint_pyHostname_eq",
+    "Ural.C07.hostOfModel_of_parseUrl",
+    "Ural.C07.upRel_upperQuoted",
+    "Ural.C07.grammar_decomp",
+    "Ural.C07.helper_host",
+    "Ural.C07.normHost_lowerFixed",
+    "Ural.Props.C07.normalizeUrlString_class",
+    "Ural.Props.C07.norm_reparseOk",
+    "Ural.Props.C07.stems_agree_norm",
+    "Ural.Props.C07.hasNet_default",
+    "Ural.Props.C07.hasNet_needed",
+    "Ural.Props.C07.fingerprintSplit_class",
+    "Ural.Props.C07.stems_agree_fp",
+    "Ural.Props.C07.normalized_stems_factor",
+    "Ural.Props.C07.fingerprinted_stems_factor",
+    "Ural.Props.C07.canonicalized_stems_factor",
+    "Ural.Props.C07.normalized_hostname_string",
+    "Ural.Props.C07.fingerprinted_hostname_string",
+    "Ural.Props.C07.fingerprinted_hostname_agrees_model",
+    "Ural.Props.C07.bare_hostClass",
+    "Ural.Props.C07.bare_hostname_string",
+    "Ural.C07.inferTarget_none",
+    "Ural.Props.C07.infer_bare",
+    "Ural.Props.C07.bare_hostname_agrees_infer",
+    "Ural.Props.C07.bare_hostname_string_infer",
 ]
 TABLE_OBLIGATIONS = [
     "Ural.Props.C07.irrelevant_labels_ascii",
@@ -53,7 +86,10 @@ RULE = (
     "the real parser's host is shipped), the hostname component of normalize_url / fingerprint_url (compared with the .hostname accessor of "
     "the real unsplit=False tuple), the three stem variants as whole model functions (real Parsed and split_suffix answers shipped), "
     "lru_stems of the three result strings (real urlsplit components shipped) with and without the scheme stem, get_hostname with the "
-    "shipped and — inside the modelled alphabet — the modelled parser, get_normalized_hostname with the modelled parser, and the per-case "
+    "shipped and — inside the modelled alphabet — the modelled parser, get_normalized_hostname with the modelled parser, and — the functions the "
+    "string-level theorems are about, nothing of CPython's parser shipped, when the string that is parsed is inside the modelled parser's "
+    "alphabet — normalize_url / fingerprint_url as whole-string functions (normalize_whole, fingerprint_whole), the three stem variants and "
+    "get_fingerprinted_hostname with the MODELLED parser inside (c07_stems / c07_helper_model with model_parser), and the per-case "
     "evaluation of the hypotheses the URL-level theorems take from CPython (same clean host in both prepared strings). URLs holding a "
     "non-ASCII character that str.lower() changes are outside the model alphabet: oracle only. Non-trivial = the URL parses and has a "
     "non-empty host / the bare hostname is non-empty; distinct = distinct (input, configuration)."
@@ -61,10 +97,10 @@ RULE = (
 EXHAUSTIVE = {}
 TRUSTED = [
     "Lean 4 kernel; axioms of every listed theorem audited to be within {propext, Classical.choice, Quot.sound}",
-    "hand-written Lean models Model/Normalize.lean, Model/Fingerprint.lean (shared, C03-C07), Model/Lru.lean (C12/C13), Model/LruVariants.lean and Model/C07.lean (stem variants, safe_urlsplit, get_hostname, hostname component of the URL functions), tied to the code by differential execution on every run",
-    "CPython: urlsplit and the SplitResult accessors are parameters of the model for the URL-level theorems (the real Parsed record is shipped); those theorems take, about the input at hand, the facts they need as explicit hypotheses: the parser finds the same host in the string the helper builds and in the string the URL function builds (they differ by 'http:' in front of '//' and by the case of percent-escapes), that host is clean (lower-case, no control character, no leading/trailing whitespace), the .hostname accessor reads back the host unsplit_netloc wrote, urlsplit(ensure_protocol(urlunsplit(t))) = t (ReparseOk, the round-trip development Lemmas/UrlRoundTrip.lean); the first two are evaluated on every case of the run (model line c07_true vs assumptions_hold), the accessor fact by the c07_host lines, and the reparse clause is what the oracle checks literally",
+    "hand-written Lean models Model/Normalize.lean, Model/Fingerprint.lean (shared, C03-C07), Model/NormalizeUrl.lean, Model/FingerprintUrl.lean, Model/C06Netloc.lean (the two URL functions as whole-string functions with the modelled parser / accessors inside), Model/CanonicalizeUrl.lean, Model/Lru.lean (C12/C13), Model/LruVariants.lean and Model/C07.lean (stem variants, safe_urlsplit, get_hostname, hostname component of the URL functions), tied to the code by differential execution on every run",
+    "CPython's urlsplit and SplitResult accessors: (a) string-level theorems (Props/C07Whole.lean: normalized_hostname_string, fingerprinted_hostname_string, bare_hostname_string, stems_agree_norm, stems_agree_fp, the *_stems_factor theorems) — the parser is the hand model Py/UrlSplit.lean + Py/UrlAccessors.lean + Py/Split.lean on BOTH sides of every equation (inside normalize_url / fingerprint_url, inside the helpers, and where the result string is parsed again after ensure_protocol); the three hand models of .hostname (Py/Split.lean, Py/UrlAccessors.lean, Model/C06Netloc.lean) are proved equal (pyHostname_eq, fingerprint_pyHostname_eq), hostOfModel is the hostname field of parseUrl (hostOfModel_of_parseUrl); the hand parser is compared with CPython on every run (c07_get_hostname, c07_model_host, c07_helper_model, c07_url_stems with model_parser, c07_stems with model_parser, normalize_whole, fingerprint_whole here; parse_url streams of C01/C02), not proved equal to it; its stated domain (no non-ASCII cased character in the host, no NFKC-sensitive netloc, bracketed hosts approximated) bounds the tie; (b) the older component-level theorems (normalized_hostname_agrees, fingerprinted_hostname_agrees, stems_agree_*_of_reparse) keep the parser as a parameter and their per-input hypotheses (hsame, hclean, hacc/hhost, ReparseOk), which (a) discharges on the class; they are still evaluated on every case (c07_true vs assumptions_hold, c07_host lines, the oracle)",
     "Py/UrlSplit.lean + Py/Split.lean: hand model of urlsplit and .hostname (CPython 3.12.1) used by bare_hostname_*, get_hostname_spec; compared with the real parser on every case inside the modelled alphabet (no bracketed host outside a fixed list, no non-ASCII character changed by lower())",
-    "attempt_to_decode_idna (CPython idna codec) is the parameter puny: arbitrary in every theorem (no law assumed)",
+    "attempt_to_decode_idna (CPython idna codec) is the parameter puny: arbitrary (no law assumed) in the component-level theorems for an abstract parser (normHost_eq_normalizeHostname, normalized_/fingerprinted_hostname_agrees, bare_*, stems_agree_*_of_reparse); every theorem that goes through the printer / parser round trip — stems_agree_canon (which also needs a bracket-free netloc and a non-empty canonical netloc) and the string-level ones — assumes PunyClean (the decoder brings in no URL delimiter, '%', control or white-space character) and, for the hostname equations, PunyLower (a lower-case label is decoded to a lower-case label: normalize_hostname does not lower-case what follows 'amp-' after decoding it, the .hostname accessor lower-cases what it reads off the result) — both evaluated on the real decoder over the enumerated ACE label class on every run",
     "split_suffix / the suffix trie (C08) and the ISO country codes are parameters (Env) shared by both sides of every equation",
     "ASCII-exact model: str.lower on the model alphabet (DESIGN §4)",
 ]
@@ -73,17 +109,24 @@ ASSUMPTIONS = [
     "reading: 'the host of X(u)' is the host the standard parser finds in the result string after a scheme is ensured; when the result has no host at all (the tuple's hostname is empty/None) the helper must return an empty/None host too (None == '')",
     "reading: a URL whose host, as the parser reads it in the cleaned string, begins or ends with whitespace ('http://www.b.com /x', 'http ://x') is outside: the helper's hostname.strip() removes it, normalize_url keeps it; witnessed in Lean (edge_whitespace_witness)",
     "reading: the fingerprint pair is compared with the helper's default infer_redirection=True (fingerprint_url always infers); with False only on URLs carrying no redirection",
-    "reading: bare hostname = no character of '/?#@:[]%' and no control character (surrounding whitespace allowed); the URL functions are applied to the bare string itself (they add the scheme), with infer_redirection off where the option exists",
+    "reading: bare hostname = no character of '/?#@:[]%' and no control character (surrounding whitespace allowed); the URL functions are applied to the bare string itself (they add the scheme); the case stream calls them with infer_redirection off where the option exists — proved not to matter: infer_redirection leaves every bare hostname alone (infer_bare; bare_hostname_agrees_infer, bare_hostname_string_infer cover the default infer_redirection=True)",
     "reading: 'minus the scheme stem when the scheme was stripped' = when the result tuple has an empty scheme",
     "reading: the stems clause is demanded for URLs in which the parser finds a (non-empty) host: lru_stems of a hostless result such as 'custom:/path' (urlunsplit drops '//' for a scheme outside uses_netloc) puts a protocol in front of it and reads 'custom' as the host — that is lru_stems/ensure_protocol on hostless URLs (outside C12's grammar too), not a disagreement between the variant and the URL function; a hostless *result* of a URL with a host ('http://www./x', 'http://com/x' with strip_suffix) is inside",
 ]
 UNPROVED = (
-    "the URL-level equations (normalized_hostname_agrees, fingerprinted_hostname_agrees, bare_hostname_agrees_url) hold under per-input hypotheses about CPython's parser "
-    "(same clean host in both prepared strings; accessor reads back the written host), not proved inside the model; stems_agree_* are stated _of_reparse: "
-    "urlsplit(ensure_protocol(urlunsplit t)) = t is an explicit hypothesis (ReparseOk; it fails for hostless URLs with a scheme outside uses_netloc, 'custom:///path'); "
-    "for canonicalize_url it is discharged (stems_agree_canon: modelled parser, bracket-free netloc, non-empty canonical netloc, PunyClean decoder) with the round-trip development, for normalize_url / fingerprint_url it stays a hypothesis. "
-    "Both regions are explored by the oracle on the implementation on every run. Proved without hypothesis: normHost = normalize_hostname on clean hosts, "
-    "bare hostnames through the modelled parser, get_hostname_spec."
+    "Proved for every string of an explicit decidable class, the parser inside the model (Props/C07Whole.lean): the class is InClassOf ir g u of Lemmas/NormBridge.lean — the cleaned, resolved form of u "
+    "(white space / control characters around, control characters anywhere, lower-case escapes, a followed redirect are all inside) is a string [letters:// | // | nothing][userinfo@]host[:port][/path][?query][#fragment] — "
+    "with a host that is no IP literal and a port text that is a port (else normalize_url returns its argument / fingerprint_url raises: outside the reading). "
+    "stems_agree_norm (every option set of normalize_url) and stems_agree_fp (both strip_suffix, every trie) have NO reparse hypothesis any more: ReparseOk is proved (norm_reparse, fp_reparse: the tuple is well-formed, "
+    "ensure_protocol puts back what was cut, urlsplit_urlunsplit20), results without netloc included; remaining side conditions: HasNet for normalize_url (the tuple has a netloc, or no scheme, or a scheme of uses_netloc — "
+    "always true with the default strip_protocol=True; outside it the clause really fails: hasNet_needed, 'custom:///path' with strip_protocol=False), HostPlain with strip_suffix=True (host made of characters that are no delimiter, '%', "
+    "control or white space: the model of safe_urlsplit(hostname).hostname is proved to be the identity there). "
+    "normalized_hostname_string / fingerprinted_hostname_string / bare_hostname_string have NO parser hypothesis any more (hsame, hclean, hacc/hhost discharged: helper_host via grammar_decomp — upper_quoted only changes the case of hex digits —, "
+    "accessors_unsplitNetloc, norm_reparse / fp_reparse); they add to the class: no '%' in the host (with one, the two cleaned strings differ by the case of the hex digits INSIDE the host and the equation would need the idna decoder to ignore it: "
+    "not a failing region — 'http://A%2fb.com/x' agrees — but unproved) and no white space at the ends of the host (the reading; edge_whitespace_witness). "
+    "NOT proved, covered by the oracle + correspondence on every run: IP-literal hosts ('[::1]'), hosts holding '%', userinfo holding brackets or '/?#', relative references, platform_aware=True, "
+    "strip_suffix=True on a host with white space inside; the label decoder is abstract (PunyClean, PunyLower: hypotheses, evaluated on the real decoder); CPython's parser itself is modelled, compared, not proved equal. "
+    "Proved without hypothesis as before: normHost = normalize_hostname on clean hosts, bare hostnames through the modelled parser, get_hostname_spec."
 )
 
 
@@ -435,6 +478,11 @@ def url_ops(case):
                             "split": _split_of(tup["canon"]) if tup["canon"] is not None else None})
     except Exception:  # noqa
         pass
+    # the same three variants, the two whole URL functions and the fingerprint helper with the MODELLED
+    # parser inside (nothing of CPython's parser shipped): the functions the string-level theorems of
+    # Props/C07Whole.lean / Props/C11Whole.lean are about
+    for tag, l in _model_parser_lines(case, tup):
+        add(tag, l)
     # lru_stems of the result strings
     for k in ("norm", "fp", "canon"):
         s = strs[k]
@@ -459,6 +507,57 @@ def url_ops(case):
     add("assume", {"f": "c07_true"})
     _tags[_key(case)] = tags
     return ops
+
+
+def _model_parser_lines(case, tup):
+    """[(tag, model line)]: stem variants / URL functions / fingerprint helper computed with the model's own
+    parser; withheld when the string that is parsed is outside the modelled parser's alphabet"""
+    import normwhole
+
+    u, amp, inf, ss, sa = case["url"], case["amp"], case["infer"], case["ss"], case["sa"]
+    out = []
+    o = {"normalize_amp": amp, "infer_redirection": inf}
+    try:
+        fin = nc.prepare(u, nc.full_opts(o))["final"]
+    except Exception:  # noqa
+        fin = None
+    if fin is not None and parser_in_model(fin):
+        for l in normwhole.norm_ops(u, o):
+            out.append(("whole_norm", l))
+        l = _norm_line("c07_stems", u, amp, inf, {"variant": "norm", "sa": sa, "model_parser": True,
+                                                   "split": _split_of(tup["norm"]) if tup["norm"] is not None else None})
+        l["parsed"] = None
+        out.append(("stems_norm_model", l))
+    try:
+        finl = nc.prepare(u.lower(), nc.full_opts({}))["final"]
+    except Exception:  # noqa
+        finl = None
+    if finl is not None and parser_in_model(finl):
+        for l in normwhole.fp_ops(u, strip_suffix=ss):
+            out.append(("whole_fp", l))
+        l = _fp_line("c07_stems", u, ss, {"variant": "fp", "sa": sa, "model_parser": True,
+                                          "split": _split_of(tup["fp"]) if tup["fp"] is not None else None})
+        if l is not None:
+            l["parsed"] = None
+            l["acc"] = {}
+            l["walk"] = {}
+            out.append(("stems_fp_model", l))
+        if _helper_model_ok(u.lower(), True):
+            l = {"f": "c07_helper_model", "fn": "gfh", "url": u, "infer_redirection": True, "strip_suffix": ss,
+                 "model_parser": True, "puny": nc._host_puny(raw_host(u.lower(), True) or "")}
+            if ss:
+                l["rules_file"] = nc.rules_file()
+            out.append(("gfh_model", l))
+    try:
+        cl = cc.clean_impl(u, "https")
+        p = cc.parse(cl)
+        if parser_in_model(cl):
+            out.append(("stems_canon_model", {"f": "c07_stems", "variant": "canon", "url": u, "parsed": None, "model_parser": True,
+                                              "puny": cc.puny_table(p["hostname"]) if p else {}, "sa": sa,
+                                              "split": _split_of(tup["canon"]) if tup["canon"] is not None else None}))
+    except Exception:  # noqa
+        pass
+    return out
 
 
 def _helper_model_ok(u, inf):
@@ -546,6 +645,28 @@ def url_impl(case):
         elif tag == "stems_canon":
             r = _g(canonicalized_lru_stems, u, suffix_aware=sa)
             out.append(lib.pyerr(r.e) if isinstance(r, _Exc) else {"stems": list(r)})
+        elif tag == "whole_norm":
+            import normwhole
+
+            out.append(normwhole.norm_impl(u, {"normalize_amp": amp, "infer_redirection": inf})[0])
+        elif tag == "whole_fp":
+            import normwhole
+
+            out.append(normwhole.fp_impl(u, strip_suffix=ss)[0])
+        elif tag == "stems_norm_model":
+            r = _g(normalized_lru_stems, u, suffix_aware=sa, normalize_amp=amp, infer_redirection=inf)
+            out.append(None if tup["norm"] is None else (lib.pyerr(r.e) if isinstance(r, _Exc) else {"stems": list(r)}))
+        elif tag == "stems_fp_model":
+            r = _g(fingerprinted_lru_stems, u, suffix_aware=sa, strip_suffix=ss)
+            out.append(lib.pyerr(r.e) if isinstance(r, _Exc) else {"stems": list(r)})
+        elif tag == "stems_canon_model":
+            r = _g(canonicalized_lru_stems, u, suffix_aware=sa)
+            out.append(lib.pyerr(r.e) if isinstance(r, _Exc) else {"stems": list(r)})
+        elif tag == "gfh_model":
+            from ural.fingerprint_url import get_fingerprinted_hostname
+
+            r = _g(get_fingerprinted_hostname, u, strip_suffix=ss)
+            out.append(lib.pyerr(r.e) if isinstance(r, _Exc) else [r])
         elif tag.startswith("url_stems_"):
             s = strs[tag[len("url_stems_"):]]
             r = _g(lru_stems, s, suffix_aware=sa)
@@ -785,6 +906,37 @@ def nontrivial(case):
     return None
 
 
+# the class of the string-level theorems (Props/C07Whole.lean: StemClass / HostClass), decided on the real
+# cleaning pass — for the histogram only (how much of the stream the theorems cover)
+import re as _re
+
+_GRAMMAR = _re.compile(
+    r"\A(?:(?P<sc>[A-Za-z]{1,64})://|(?P<sl>//)|)(?:(?P<ui>[^/?#\[\]]*)@)?(?P<host>[^/?#@:\[\]]*)"
+    r"(?::(?P<port>[^/?#@\[\]]*))?(?P<path>/[^?#]*)?(?:\?(?P<q>[^#]*))?(?:#(?P<f>.*))?\Z", _re.S)
+
+
+def theorem_class(u, inf, lower=False):
+    """None (outside), 'stem' (StemClass) or 'host' (HostClass) for normalize_url(u, infer_redirection=inf) /
+    — lower=True — fingerprint_url(u)"""
+    from ural.patterns import PROTOCOL_RE
+
+    try:
+        pr = nc.prepare(u.lower() if lower else u, nc.full_opts({"infer_redirection": True if lower else inf}))
+    except Exception:  # noqa
+        return None
+    c = pr["final"] if pr["has_protocol"] else pr["final"][len("http://"):]
+    m = _GRAMMAR.match(c)
+    if m is None:
+        return None
+    if m.group("sc") is None and m.group("sl") is None and PROTOCOL_RE.match(c):
+        return None
+    port = m.group("port")
+    if port and not (port.isascii() and port.isdigit() and int(port) <= 65535):
+        return None
+    h = m.group("host")
+    return "host" if "%" not in h and h == h.strip() else "stem"
+
+
 def classify(case):
     if case["k"] == "host":
         h = case["h"]
@@ -806,6 +958,8 @@ def classify(case):
         labs.append("url:redirect-carrying")
     if "://" not in u:
         labs.append("url:no-scheme")
+    labs.append("theorem-class(normalize):%s" % (theorem_class(u, case["infer"]) or "outside"))
+    labs.append("theorem-class(fingerprint):%s" % (theorem_class(u, True, lower=True) or "outside"))
     return labs
 
 
@@ -813,7 +967,7 @@ def classify(case):
 # real decode_punycode_hostname, over the enumerated class of ACE labels, on every run (shared:
 # harness/punylaws.py; a failure is reported as a broken obligation `law`)
 RUN_OBLIGATION_GROUPS = ('PunyClean',)
-RUN_OBLIGATIONS = "%s of the real label decoder over the enumerated ACE label class of harness/punylaws.py" % " + ".join(RUN_OBLIGATION_GROUPS)
+RUN_OBLIGATIONS = "%s + PunyLower (a lower-case label decodes to a lower-case label) of the real label decoder over the enumerated ACE label class of harness/punylaws.py" % " + ".join(RUN_OBLIGATION_GROUPS)
 
 
 TRUSTED = list(TRUSTED) + [
@@ -822,8 +976,28 @@ TRUSTED = list(TRUSTED) + [
 ]
 
 
+def puny_lower_failures(tier, limit=6):
+    """PunyLower (Lemmas/C07Whole.lean) on the real decoder: the ASCII letters of what a lower-case label
+    decodes to are lower-case"""
+    import punylaws as P
+
+    out, n = [], 0
+    for lab, name in P.ace_labels(tier):
+        x = P.ascii_lower(P.ace_form(lab))
+        try:
+            d = P.decode_label(x)
+        except Exception:  # noqa  (reported by PunyLaws.total where that group is run)
+            continue
+        if isinstance(d, str) and P.ascii_lower(d) != d:
+            n += 1
+            if n <= limit:
+                out.append("PunyLower.lower fails for the real decoder (decode_punycode_hostname on one label): %r -> %r [class %s]" % (x, d, name))
+    if n > limit:
+        out.append("PunyLower.lower: %d labels of the class fail in all" % n)
+    return out
+
+
 def run_obligations(tier):
     import punylaws
 
-    return punylaws.run_obligations(RUN_OBLIGATION_GROUPS, tier)
-
+    return punylaws.run_obligations(RUN_OBLIGATION_GROUPS, tier) + puny_lower_failures(tier)
